@@ -137,3 +137,6 @@ Print Assumptions C03_any_class_path_override_refuted.
 Theorem C03_print_config_value_empty_refuted : finding_status 22 wit_finding_22.
 Proof. exact finding_22_status. Qed.
 Print Assumptions C03_print_config_value_empty_refuted.
+Theorem C03_json_int_digit_limit_refuted : finding_status 23 wit_finding_23.
+Proof. exact finding_23_status. Qed.
+Print Assumptions C03_json_int_digit_limit_refuted.
